@@ -5,7 +5,9 @@ docstring of read_cgsmiles, tests/test_cgsmile_parsing.py), with
     render(ast)  -> str             the text '{...}'
     denote(ast)  -> networkx.Graph  the graph the grammar denotes (independent of the reader)
     expand(ast)  -> ast             multipliers written out longhand
-    skeletons / c04_exhaustive / c04_random / c05_exhaustive / c05_random   enumerators
+    skeleton_shapes / c04_recipes / c04_annotated_recipes / c04_random / c05_recipes / c05_*_recipes / c05_random
+                                    enumerators; they yield compact JSON *recipes* (or {'ast': ...}), `build(recipe)`
+                                    makes the AST;  `parse(text)` / `selftest()` check G1 against the repo's own tests
 
 AST (JSON-serialisable; a *chain* is a list of nodes, the AST is the top-level chain):
 
@@ -969,8 +971,9 @@ def compare_exact(exp_nodes, exp_edges, obs_nodes, obs_edges, free_keys=FREE_KEY
     return out
 
 
-def isomorphic(exp_nodes, exp_edges, obs_nodes, obs_edges, free_keys=FREE_KEYS):
-    """isomorphism that respects fragname, charge, weight, the free annotation keys and the bond orders"""
+def isomorphic(exp_nodes, exp_edges, obs_nodes, obs_edges, free_keys=FREE_KEYS, with_orders=True):
+    """isomorphism that respects fragname, charge, weight, the free annotation keys and (unless with_orders is
+    False) the bond orders"""
     if len(exp_nodes) != len(obs_nodes) or len(exp_edges) != len(obs_edges):
         return False
     ge = nx.Graph()
@@ -990,8 +993,157 @@ def isomorphic(exp_nodes, exp_edges, obs_nodes, obs_edges, free_keys=FREE_KEYS):
 
     def em(a, b):
         return a.get('order') == b.get('order')
-    return nx.is_isomorphic(ge, go, node_match=nm, edge_match=em)
+    return nx.is_isomorphic(ge, go, node_match=nm, edge_match=em if with_orders else None)
 
 
 def fmt_edges(edges):
     return sorted([list(k) + [v] for k, v in edges.items()], key=repr)
+
+
+# ------------------------------------------------------------------------------------------------
+# parse: text -> AST.  NOT used by any oracle (expected values always come from ASTs the generators made);
+# it exists so that `selftest()` can check render / denote / expand against the strings and expected graphs of
+# the repository's own test_read_cgsmiles, and so that a replayed text can be turned back into an AST.
+# ------------------------------------------------------------------------------------------------
+def _parse_annotation(ann):
+    """meaning of an annotation text under the coarse dialect (positional q, w; keywords q, w; other keys verbatim)"""
+    attrs = {}
+    pos = 0
+    for entry in [e for e in ann.split(';') if e != '']:
+        if '=' in entry:
+            k, v = entry.split('=')
+            if k == 'q':
+                attrs['charge'] = float(v)
+            elif k == 'w':
+                attrs['weight'] = float(v)
+            else:
+                attrs[k] = v
+        else:
+            attrs[('charge', 'weight')[pos]] = float(entry)
+            pos += 1
+    return attrs
+
+
+def parse(text):
+    """recursive-descent parser for the grammar that `render` writes"""
+    assert text[0] == '{' and text[-1] == '}', text
+    s = text[1:-1]
+    pos = [0]
+
+    def peek(k=0):
+        return s[pos[0] + k] if pos[0] + k < len(s) else ''
+
+    def number():
+        start = pos[0]
+        while peek().isdigit():
+            pos[0] += 1
+        return int(s[start:pos[0]])
+
+    def node(in_sym):
+        assert s.startswith('[#', pos[0]), (text, pos[0])
+        end = s.index(']', pos[0])
+        body = s[pos[0] + 2:end]
+        pos[0] = end + 1
+        name, _, ann = body.partition(';')
+        n = mk_node(name, ann=(';' + ann) if ann else '', attrs=_parse_annotation(ann), in_=in_sym)
+        # ring markers
+        while True:
+            sym = peek() if peek() in NONDEFAULT and (peek(1).isdigit() or peek(1) == '%') else ''
+            k = len(sym)
+            if peek(k).isdigit():
+                n['rings'].append([sym, peek(k)])
+                pos[0] += k + 1
+            elif peek(k) == '%':
+                n['rings'].append([sym, s[pos[0] + k:pos[0] + k + 3]])
+                pos[0] += k + 3
+            else:
+                break
+        if peek() == '|':
+            pos[0] += 1
+            n['mult'] = number()
+        # branches
+        while True:
+            sym = peek() if peek() in NONDEFAULT and peek(1) == '(' else ''
+            if peek(len(sym)) != '(':
+                break
+            pos[0] += len(sym) + 1
+            b = mk_branch(chain(sym))
+            assert peek() == ')', (text, pos[0])
+            pos[0] += 1
+            inter = peek() if peek() in NONDEFAULT and peek(1) == '|' else ''
+            if peek(len(inter)) == '|':
+                pos[0] += len(inter) + 1
+                b['mult'] = number()
+                b['inter'] = inter
+            n['br'].append(b)
+        return n
+
+    def chain(first_sym):
+        out = [node(first_sym)]
+        while True:
+            sym = peek() if peek() in NONDEFAULT and peek(1) == '[' else ''
+            if peek(len(sym)) != '[':
+                break
+            pos[0] += len(sym)
+            out.append(node(sym))
+        return out
+
+    ast = chain('')
+    assert pos[0] == len(s), (text, pos[0], s[pos[0]:])
+    return ast
+
+
+def selftest(test_module_path='/repo/cgsmiles/tests/test_cgsmile_parsing.py'):
+    """
+    Check G1 against the repository's own expectations: for each of the strings of test_read_cgsmiles that is
+    inside G1's scope, render(parse(s)) == s and denote(parse(s)) has exactly the nodes, charges, edges and orders
+    the test expects.  Returns (checked, skipped-as-out-of-scope, problems).
+    """
+    import ast as pyast
+    import warnings
+    src = open(test_module_path).read()
+    with warnings.catch_warnings():
+        warnings.simplefilter('ignore')
+        tree = pyast.parse(src)
+    params = None
+    for fn in tree.body:
+        if isinstance(fn, pyast.FunctionDef) and fn.name == 'test_read_cgsmiles':
+            params = pyast.literal_eval(fn.decorator_list[0].args[1])
+    checked, skipped, problems = 0, [], []
+    for smile, names, charges, edges, orders in params:
+        try:
+            a = parse(smile)
+        except Exception as e:
+            skipped.append((smile, 'not parsed: %r' % (e,)))
+            continue
+        if render(a) != smile:
+            problems.append((smile, 'render gives ' + render(a)))
+            continue
+        why = scope_violation(a, max_depth=5)
+        if why:
+            skipped.append((smile, why))
+            continue
+        nodes, dedges = denote_lists(a)
+        checked += 1
+        if has_branch_multiplier(a):
+            # numbering of the copies of a multiplied branch is not fixed by the documentation: isomorphism
+            obs_nodes = {i: {'fragname': nm, 'charge': 0.0, 'weight': 1.0} for i, nm in enumerate(names)}
+            obs_edges = {(min(u, v), max(u, v)): o for (u, v), o in zip(edges, orders)}
+            if not isomorphic(nodes, dedges, obs_nodes, obs_edges):
+                problems.append((smile, 'not isomorphic to the expected graph of the test'))
+            continue
+        if [n['fragname'] for n in nodes] != names:
+            problems.append((smile, 'names %r' % [n['fragname'] for n in nodes]))
+        if charges and {i: n['charge'] for i, n in enumerate(nodes)} != charges:
+            problems.append((smile, 'charges'))
+        exp = {(min(u, v), max(u, v)): o for (u, v), o in zip(edges, orders)}
+        if exp != dedges:
+            problems.append((smile, 'edges %r expected %r' % (sorted(dedges.items()), sorted(exp.items()))))
+    return checked, skipped, problems
+
+
+if __name__ == '__main__':
+    c, s, p = selftest()
+    print('selftest: %d strings of test_read_cgsmiles agree with denote/expand, %d outside the scope, %d problems' % (c, len(s), len(p)))
+    for x in s + p:
+        print('  ', x)
